@@ -16,7 +16,9 @@ RULE = ('case = 2-4 synthetic data sets (all v4 through ConcatenatedDataSet, or 
         'checks: chronological order, timestamps / vis / flags / weights / sensors = concatenation of the parts, scan and '
         'compscan indices continue across parts, merged catalogue, selections (dumps masks spanning parts, channels, '
         'corrprods, targets by name, scans by state) select in every part what the same criteria select there, '
-        'second-stage indices across part boundaries, scans() iteration, differing dump periods refused.  '
+        'second-stage indices across part boundaries, scans() iteration, differing dump periods (by 2 s down to '
+        '2**-40 s) refused; 30% of the cases have parts of different subarrays and spectral windows (patterns drawn '
+        'independently): merged lists, index sensors and select(subarray=j, spw=k) for every pair.  '
         'non-trivial = a read spanned at least two parts; distinct = hash of the encoded case.')
 TRUSTED = ['Lean 4.33 kernel', 'axioms: propext, Classical.choice, Quot.sound only',
            'hand-written models (LazyIndexer.concatHead, Concat) tied to /repo by this differential run',
@@ -44,13 +46,22 @@ def gen_case(rng):
         act = sorted({a[0]: a for a in act}.values())
         targets = [[-1.0, tgt[0]]] + ([[rng.randint(1, 2 * T) / 2.0, tgt[1]]] if len(tgt) > 1 else [])
         parts.append(dict(T=T, activity=act, targets=targets, extra=rng.random() < 0.6, seed=rng.randrange(2 ** 31)))
+    # parts of different subarrays (correlation-product labelling) and spectral windows (centre frequency);
+    # the two patterns are drawn independently so that they differ from each other in most cases
+    multi = rng.random() < 0.3
+    if multi:
+        fmt = 'v4'
+        for pt in parts:
+            pt['sub'] = rng.randint(0, 1)
+            pt['spw'] = rng.randint(0, 2)
     order = list(range(nparts))
     rng.shuffle(order)
     ops = []
     for _ in range(rng.randint(1, 3)):
         ops.append(dict(kind=rng.choice(['dumpsmask', 'channels', 'corrprods', 'target', 'scans', 'none', 'timerange']),
                         seed=rng.randrange(2 ** 31)))
-    return dict(fmt=fmt, F=F, n_ants=n_ants, parts=parts, order=order, ops=ops, bad_period=rng.random() < 0.08,
+    return dict(fmt=fmt, F=F, n_ants=n_ants, parts=parts, order=order, ops=ops, bad_period=rng.random() < 0.12,
+                period_delta=rng.choice([2.0, 1e-3, 1e-6, 1e-9, 2.0 ** -40]), multi=multi,
                 seed=rng.randrange(2 ** 31))
 
 
@@ -65,7 +76,8 @@ def build_parts(case, tmp):
     for p, spec in enumerate(case['parts']):
         rng = random.Random(spec['seed'])
         pt = Part()
-        int_time = 2.0 if not (case['bad_period'] and p == 1) else 4.0
+        int_time = 2.0 if not (case['bad_period'] and p == 1) else 2.0 + case.get('period_delta', 2.0)
+        multi = case.get('multi', False)
         start = t0 + p * gap
         activity = [(a, b) for a, b in spec['activity']]
         targets = [(a, TARGETS[b]) for a, b in spec['targets']]
@@ -77,7 +89,9 @@ def build_parts(case, tmp):
             syn = v4synth.make_v4(rng, T=spec['T'], F=case['F'], n_ants=case['n_ants'], shuffle_bls=False,
                                   sync_time=start - 128.0, first_timestamp=128.0, int_time=int_time,
                                   activity=activity, targets=targets, extra_sensors=extra,
-                                  cbid=str(1600000000 + p))
+                                  cbid=str(1600000000 + p),
+                                  pols=('vh' if multi and spec.get('sub') else 'hv'),
+                                  center_freq=1284e6 + 16e6 * (spec.get('spw', 0) if multi else 0))
             pt.vis = syn.stored['correlator_data']
             pt.flags = syn.stored['flags'] != 0
             pt.weights = (syn.stored['weights'] * syn.stored['weights_channel'][..., None]).astype(np.float32)
@@ -126,17 +140,21 @@ def run_case(ctx, case):
             for p_, r_ in zip(parts, refs):
                 p_.ref = r_.dataset
             from katdal.concatdata import ConcatenationError
+            periods = sorted({float(r.dataset.dump_period) for r in refs})
+            differing = len(periods) > 1
             try:
                 d = open_concat(case, parts)
             except ConcatenationError as e:
-                if case['bad_period'] and len(parts) > 1:
-                    ctx.tag('dump-period-refused')
+                if differing:
+                    ctx.tag('dump-period-refused', 'period-delta-%g' % case.get('period_delta', 2.0))
                     return None, False
                 return f'compatible data sets were refused: {str(e)[:100]}', False
             except Exception as e:   # noqa: BLE001
                 return f'opening the parts together raised {type(e).__name__}: {str(e)[:120]}', False
-            if case['bad_period'] and len(parts) > 1:
-                return 'data sets with differing dump periods were concatenated instead of refused', False
+            if differing:
+                return (f'data sets with differing dump periods {periods} were concatenated instead of refused'), False
+            if case.get('multi'):
+                return drive_multi(ctx, case, parts, d)
             return drive(ctx, case, parts, d)
     finally:
         shutil.rmtree(tmp, ignore_errors=True)
@@ -294,6 +312,78 @@ def drive(ctx, case, parts, d):
         return f'scans() on the combined data set raised {type(e).__name__}: {str(e)[:80]}', spanned
     if sorted(seen) != before or len(seen) != len(set(seen)):
         return f'scans() on the combined data set visited dumps {sorted(seen)} of the selection {before}', spanned
+    return None, spanned
+
+
+def drive_multi(ctx, case, parts, d):
+    """parts of different subarrays / spectral windows: merged lists in order of first appearance, per-dump index
+    sensors, and select(subarray=j, spw=k) = the dumps (and data) of exactly the parts with that pair"""
+    chrono = sorted(parts, key=lambda p: p.start)
+    lens = [len(p.timestamps) for p in chrono]
+    offs = np.cumsum([0] + lens)
+    T = int(offs[-1])
+    subs, spws = [], []
+    for p in chrono:
+        if p.spec['sub'] not in subs:
+            subs.append(p.spec['sub'])
+        if p.spec['spw'] not in spws:
+            spws.append(p.spec['spw'])
+    if len(d.subarrays) != len(subs) or len(d.spectral_windows) != len(spws):
+        return (f'{len(d.subarrays)} subarrays / {len(d.spectral_windows)} spectral windows merged from parts with '
+                f'{len(subs)} / {len(spws)} distinct ones'), False
+    for k, p in enumerate(chrono):
+        if d.subarrays[subs.index(p.spec['sub'])] != p.ref.subarrays[0]:
+            return f'merged subarray {subs.index(p.spec["sub"])} is not the subarray of part {k}', False
+        if d.spectral_windows[spws.index(p.spec['spw'])] != p.ref.spectral_windows[0]:
+            return f'merged spectral window {spws.index(p.spec["spw"])} is not the spectral window of part {k}', False
+    want_sub = sum([[subs.index(p.spec['sub'])] * n for p, n in zip(chrono, lens)], [])
+    want_spw = sum([[spws.index(p.spec['spw'])] * n for p, n in zip(chrono, lens)], [])
+    spanned = False
+    # the default selection is subarray 0, spectral window 0
+    pairs = [(None, None)] + [(j, k) for j in range(len(subs)) for k in range(len(spws))]
+    for j, k in pairs:
+        try:
+            if j is not None:
+                d.select(subarray=j, spw=k)
+        except Exception as e:   # noqa: BLE001
+            return f'select(subarray={j}, spw={k}) raised {type(e).__name__}: {str(e)[:100]}', spanned
+        jj, kk = (0, 0) if j is None else (j, k)
+        want = [i for i in range(T) if want_sub[i] == jj and want_spw[i] == kk]
+        dumps = [int(x) for x in d.dumps]
+        label = 'the default selection' if j is None else f'select(subarray={j}, spw={k})'
+        if dumps != want:
+            return (f'{label} selected dumps {dumps}; the parts with that subarray and spectral window '
+                    f'(part subarray indices {[subs.index(p.spec["sub"]) for p in chrono]}, spw indices '
+                    f'{[spws.index(p.spec["spw"]) for p in chrono]}, lengths {lens}) hold dumps {want}'), spanned
+        if d.subarray != jj or d.spw != kk:
+            return f'{label} reports subarray {d.subarray}, spw {d.spw}', spanned
+        sel = [p for p in chrono if subs.index(p.spec['sub']) == jj and spws.index(p.spec['spw']) == kk]
+        if not sel:
+            ctx.tag('multi-empty-pair')
+            continue
+        if [tuple(c) for c in d.corr_products] != sel[0].corrprods:
+            return f'{label}: corr_products are not those of the selected subarray', spanned
+        if not np.array_equal(np.asarray(d.freqs), sel[0].freqs):
+            return f'{label}: channel frequencies are not those of the selected spectral window', spanned
+        for name, sens, exp in (('Observation/subarray_index', want_sub, jj), ('Observation/spw_index', want_spw, kk)):
+            got = [int(x) for x in d.sensor[name]]
+            if got != [exp] * len(want):
+                return f'{label}: sensor {name} reads {got} on dumps that all have index {exp}', spanned
+        ts = np.concatenate([p.timestamps for p in sel])
+        if not np.array_equal(np.asarray(d.timestamps[:]), ts):
+            return f'{label}: timestamps are not those of the selected parts', spanned
+        for name, ind, exp in (('vis', d.vis, np.concatenate([p.vis for p in sel])),
+                               ('flags', d.flags, np.concatenate([p.flags for p in sel])),
+                               ('weights', d.weights, np.concatenate([p.weights for p in sel]))):
+            got = np.asarray(ind[:])
+            if got.shape != exp.shape or not np.array_equal(got, exp):
+                return f'{label}: {name}[:] is not the concatenation of the selected parts', spanned
+        if len(sel) > 1:
+            spanned = True
+        ctx.tag('multi-pair-read')
+    ctx.tag(f'multi-subs-{len(subs)}-spws-{len(spws)}',
+            'multi-patterns-' + ('differ' if [subs.index(p.spec['sub']) for p in chrono] !=
+                                 [spws.index(p.spec['spw']) for p in chrono] else 'same'))
     return None, spanned
 
 
